@@ -89,6 +89,7 @@ def run(res, tier):
         desc.update(family=fam, data=kind, n_states=ns, n_inputs=nu, gamma=gamma, n_iter=int(reg.n_iter_),
                     stop_reason=str(reg.stop_reason_))
         info = check(reg, ns, wfun, gamma, desc, X)
+        common.note_case('fit', desc.get('estimator'), X)
         if info:
             bad.append(dict(info, **desc, X=X.tolist()))
         if len(samples) < 3:
